@@ -29,10 +29,18 @@ DESC = {
  'C17-a': "walker returns early on a switch without cases, skipping the default block",
  'C18-b': "top-level break/continue make the command exit 0 without a diagnostic",
  'C19-b': "typed-slice conversion keeps the previous element for an unconvertible one instead of the zero value",
+ 'C03-c': "decimal integer literals parsed with base 0: a leading zero makes them octal (010 is 8) or invalid (0019)",
+ 'C07-c': "&& and || short-circuit only when the left operand has Go kind bool; for any other decided left value the right operand is evaluated anyway",
+ 'C09-c': "defer name(args) caches the looked-up function in the parsed call node; later runs of the same statement register the stale function",
+ 'C10-c': "slice + / += returns the right operand itself when the left one is empty (the result aliases it, unlike Go's append)",
+ 'C11-c': "member read uses only the first element of the field index path: promoted fields of embedded structs yield the embedded struct",
+ 'C16-c': "go call of a 3-parameter script function hands the second argument to the goroutine in place of the third",
  'C20-b': "the right operand of comparisons is no longer unwrapped from an interface-typed element",
 }
+EXTRA_PROPS = {'C09-c': ['C14']}   # seeds whose change is (also) a violation of another claimed property
 FIRST = {  # verdict of the check as it was when the seed was first evaluated
  'C08-a': 'missed', 'C08-b': 'missed', 'C04-b': 'missed', 'C19-b': 'missed', 'C01-b': 'missed',
+ 'C07-c': 'missed', 'C10-c': 'missed', 'C11-c': 'missed', 'C16-c': 'missed', 'C09-c': 'missed by the C09 check, caught by the C14 check (store into the parsed tree)',
 }
 
 def sh(*a, **kw):
@@ -55,18 +63,24 @@ def run(ids, work):
         if not os.path.exists(patch):
             continue
         prop = sid.split('-')[0]
+        props = [prop] + EXTRA_PROPS.get(sid, [])
         r = sh('patch', '-s', '-p1', '-d', work, '-i', patch)
         if r.returncode != 0:
             print(sid, 'patch does not apply:', (r.stdout + r.stderr).strip(), flush=True)
             sh('patch', '-s', '-R', '-p1', '-d', work, '-i', patch)
             continue
+        out, rcs = '', {}
         try:
             env = dict(os.environ, GOVC_EVIDENCE='/tmp/seed-evidence', GOVC_REPO=work)
-            c = sh(f'{V}/bin/govc', 'check', '--property', prop, env=env)
+            for pr in props:
+                c = sh(f'{V}/bin/govc', 'check', '--property', pr, env=env)
+                out += c.stdout + c.stderr
+                rcs[pr] = c.returncode
         finally:
             sh('patch', '-s', '-R', '-p1', '-d', work, '-i', patch)
             sh('rm', '-rf', '/tmp/seed-evidence')
-        out = c.stdout + c.stderr
+        class _C: pass
+        c = _C(); c.returncode = 1 if any(v == 1 for v in rcs.values()) else max(rcs.values())
         viol = [l for l in out.split('\n') if l.startswith('VIOLATION')]
         obl = [l.strip() for l in out.split('\n') if l.startswith('  obligation') or l.startswith('  proved obligation group')]
         demo = [f for f in os.listdir(d) if f.endswith('_test.go')]
@@ -76,7 +90,7 @@ def run(ids, work):
             'demo_test': demo[0] if demo else None,
             'first_evaluation': FIRST.get(sid, 'caught'),
             'now': 'caught' if c.returncode == 1 and viol else 'MISSED',
-            'check_exit': c.returncode, 'violation_lines': len(viol),
+            'check_exit': c.returncode, 'check_exit_by_property': rcs, 'violation_lines': len(viol),
             'first_failing_obligations': [o[:300] for o in obl[:3]],
         }
         json.dump(meta, open(f'{d}/meta.json', 'w'), indent=1)
